@@ -181,6 +181,17 @@ def sched_oracle(case, obs):
             if c[f] != s[f]:
                 return ("client %s and its matching server %s disagree on %s: %r / %r" % (ck, match, f, c[f], s[f]),
                         {"oracle": "sched-disagree", "field": f, "cfg": case["cfg"]})
+    # this adversary holds no key at all, so it cannot finish a handshake itself: a server that completed did so with one
+    # of the two honest clients, which completed with exactly its secrets
+    for sk in ("As", "Bs"):
+        s = ends[sk]
+        if not s["complete"]:
+            continue
+        m = _mirror(s["secrets"])
+        if not any(ends[ck]["complete"] and m == set((d, ep, cs, sec) for d, ep, cs, sec in ends[ck]["secrets"]
+                                                     if ep in ("HANDSHAKE", "ONE_RTT")) for ck in ("Ac", "Bc")):
+            return ("server %s completed but no honest client completed with its secrets (keyless adversary)" % sk,
+                    {"oracle": "sched-server-completed-alone", "cfg": case["cfg"]})
     if case.get("honest"):
         for k in ("Ac", "As", "Bc", "Bs"):
             if not ends[k]["complete"] and not (case["cfg"] == "G"):
@@ -194,7 +205,13 @@ def sched_suite(ctx, rng):
              "escaped": {}, "moves": {}}
     keep = []
     for case in cases:
-        obs = sched_run(case)
+        try:
+            obs = sched_run(case)
+        except Exception as ex:  # noqa: BLE001   (e.g. the priming handshake for a ticket fails: reported by tls-matrix)
+            stats["setup_failed"] = stats.get("setup_failed", 0) + 1
+            stats.setdefault("setup_exceptions", {})
+            stats["setup_exceptions"][type(ex).__name__] = stats["setup_exceptions"].get(type(ex).__name__, 0) + 1
+            continue
         stats["cases"] += 1
         for k in obs["kinds"]:
             stats["moves"][k] = stats["moves"].get(k, 0) + 1
